@@ -252,10 +252,34 @@ class BodyLocks:
             return a0()
         if re.search(r'Iterator>?::(filter|chain|cloned|copied|peekable|rev|skip|take|by_ref|skip_while|take_while)$', cg):
             return a0()
+        if re.search(r'Iterator>?::(filter_map|map|find_map|inspect|map_while)$', cg) and len(args) > 1 and self._pure_projection(args[1]):
+            # an adaptor whose closure captures nothing and calls nothing but clone / deref / as_ref: what it yields is (part of) the
+            # item it was given - `content.iter().filter_map(|item| match item { Element(e) => Some(e), _ => None })` yields children
+            return a0()
         v0 = a0()
         if v0[0] == 'set' and any(o[0] == ('lookup',) for o in v0[1]):
             return ('set', [(('lookup',), ())])
         return UNK('call:' + cg.rsplit('::', 2)[-1][:30])
+
+    def _pure_projection(self, op):
+        """op is a closure value without captures whose body only re-borrows / clones / unwraps its argument"""
+        from flow import origins
+        if not is_local_op(op):
+            return False
+        for og in origins(self.b, op):
+            st = og[1] if og[0] not in ('param', 'const', 'place') else None
+            if not (isinstance(st, dict) and st.get('k') == 'assign' and st['rv']['k'] == 'agg' and st['rv'].get('ak') == 'closure'):
+                return False
+            if st['rv'].get('ops'):
+                return False
+            cb = self.P.bodies.get(st['rv'].get('fn'))
+            if cb is None:
+                return False
+            for pos, t in cb.iter_calls():
+                c = (t['f'].get('fn') or '') if isinstance(t['f'], dict) else ''
+                if not re.search(r'Clone>?::clone$|Deref>?::deref$|AsRef<.*>>?::as_ref$|Borrow<.*>>?::borrow$|Option::<T>::(as_ref|as_deref|cloned|copied)$', c):
+                    return False
+        return True
 
     def lock_owner(self, t, depth=48, seen=frozenset()):
         """possible Owns of the object whose RwLock is acquired by call t (arg0 = &RwLock<..>)."""
